@@ -446,7 +446,7 @@ func fetchStreamRecord(url string) map[string]interface{} {
 // The model needs, per query, the events fed BEFORE it and the clock: the emitter walks the ops again.
 func (statsFamily) Emit(w io.Writer, f *hc.File) {
 	fmt.Fprintln(w, "From CV Require Import Base.Prelude Seq.RollingCounter Seq.Logic Seq.Circuit Seq.Stats Seq.StatsCase.")
-	fmt.Fprintf(w, "Definition t0 : Z := %d.\n", hc.T0.UnixNano())
+	fmt.Fprintf(w, "Definition t0 : Z := %s.\n", hc.ZofTime(hc.T0))
 	fmt.Fprintln(w, "Definition cases : list stats_case := [")
 	for i, c := range f.Cases {
 		var p statsParams
